@@ -6,7 +6,7 @@ from spec import padding as SP
 
 def _aligned(m):
     from term_image.padding import AlignedPadding, HAlign, VAlign
-    return AlignedPadding(ival(m, "p_width"), ival(m, "p_height"), HAlign(ival(m, "p_h_align", 0)), VAlign(ival(m, "p_v_align", 0)))
+    return AlignedPadding(ival(m, "p_width"), ival(m, "p_height"), HAlign(ival(m, "p_h_align", 0)), VAlign(ival(m, "p_v_align", 0)), "*")
 
 
 def _size(m):
